@@ -17,6 +17,17 @@
 //   dangling                known finding dangling-endorsement-backpointers: back pointers (endorsedBy / block of
 //                           proof) that point to no live containing endorsement; pointers are only compared
 //   mpsubmit ctx=.. atvs=.. vtbs=..   hand payloads to the instance's mempool;  genpop  MemPool::generatePopData()
+//   xdump fin               observation for a FINALIZING instance: per-block lines (status, payload ids, endorsements,
+//                           refcount/refs, chain work) without tips_/roots/payload indices and without any
+//                           block-of-proof back pointer (they dangle once containing blocks are deallocated)
+//   guard on|off            direct oracle "finalization never deallocates an unsaved block": while on, before every
+//                           operation of this instance the hashes of its dirty blocks (all three trees) are recorded
+//                           and after it every one of them must still be in memory (deallocateBlock is the only
+//                           function that frees a block and only finalization calls it); saveTrees clears the bits
+// bootstrap configuration (keys of `begin`, default 0 = bootstrapWithGenesis): vbk_bootstrap_chain=k /
+//   btc_bootstrap_chain=k  the miner first mines v1..vk / b1..bk and EVERY instance of the session (inst, clone,
+//   fromsnap, reload) is bootstrapped with bootstrapWithChain(0, [genesis, 1..k]) - the way mainnet/testnet nodes are
+//   configured. xdump prints the memory-only chainWork of every VBK/BTC block (rebuilt by loadBlockForward).
 // A failed VBK_ASSERT (std::terminate) is answered "ABORT in=<instance>", the session is abandoned and every line
 // up to the next `begin` is answered "DEAD" (see main()).
 #include "world.hpp"
@@ -107,21 +118,30 @@ struct StoreSession : public vw::Session {
     return "ALT " + reg->nameOf(i.getHash()) + " h=" + std::to_string(i.getHeight()) + " st=" +
            std::to_string(i.getStatus()) + (withMarks ? marks(i) : "") + vw::plIds(*reg, i) + ceOnly(i) + byOnly(i);
   }
-  std::string vbkLine(const BlockIndex<VbkBlock>& i, bool withMarks, bool deref, bool omitBop = false) {
+  // memory-only accumulated proof of work (what PoW fork resolution compares), rebuilt on load
+  template <typename Index>
+  static std::string workOf(const Index& i) {
+    auto h = i.chainWork.toHex();
+    size_t p = h.find_first_not_of('0');
+    return " cw=" + (p == std::string::npos ? std::string("0") : h.substr(p));
+  }
+  std::string vbkLine(const BlockIndex<VbkBlock>& i, bool withMarks, bool deref, bool omitBop = false,
+                      bool work = false) {
     return "VBK " + reg->nameOf(i.getHash()) + " h=" + std::to_string(i.getHeight()) + " st=" +
            std::to_string(i.getStatus()) + (withMarks ? marks(i) : "") + " rc=" + std::to_string(i.refCount()) +
-           vtbIds(i) + ceOnly(i) + byOnly(i) + bopOnly(i, deref, omitBop);
+           vtbIds(i) + ceOnly(i) + byOnly(i) + bopOnly(i, deref, omitBop) + (work ? workOf(i) : "");
   }
-  std::string btcLine(const BlockIndex<BtcBlock>& i, bool withMarks, bool deref, bool omitBop = false) {
+  std::string btcLine(const BlockIndex<BtcBlock>& i, bool withMarks, bool deref, bool omitBop = false,
+                      bool work = false) {
     auto refs = i.getRefs();
     std::sort(refs.begin(), refs.end());
     std::string s = "BTC " + reg->nameOf(i.getHash()) + " h=" + std::to_string(i.getHeight()) + " st=" +
                     std::to_string(i.getStatus()) + (withMarks ? marks(i) : "") + " refs=[";
     for (auto x : refs) s += std::to_string(x) + ",";
-    return s + "]" + bopOnly(i, deref, omitBop);
+    return s + "]" + bopOnly(i, deref, omitBop) + (work ? workOf(i) : "");
   }
 
-  std::string xdump(Instance& I, bool deref, bool altOnly = false) {
+  std::string xdump(Instance& I, bool deref, bool altOnly = false, bool finMode = false) {
     vw::Obs o;
     auto& t = I.tree;
     for (auto* i : t.getBlocks()) o.add(altLine(*i, true));
@@ -149,12 +169,12 @@ struct StoreSession : public vw::Session {
       std::replace(s.begin(), s.end(), ' ', '_');
       return s;
     }
-    for (auto* i : t.vbk().getBlocks()) o.add(vbkLine(*i, true, deref));
-    o.add("VBK tips" + tipsOf(t.vbk()));
+    for (auto* i : t.vbk().getBlocks()) o.add(vbkLine(*i, true, deref, finMode, true));
+    if (!finMode) o.add("VBK tips" + tipsOf(t.vbk()));
     o.add("VBK root " + reg->nameOf(t.vbk().getRoot().getHash()));
     o.add("VBK best " + reg->nameOf(t.vbk().getBestChain().tip()->getHash()));
-    for (auto* i : t.btc().getBlocks()) o.add(btcLine(*i, true, deref));
-    o.add("BTC tips" + tipsOf(t.btc()));
+    for (auto* i : t.btc().getBlocks()) o.add(btcLine(*i, true, deref, finMode, true));
+    if (!finMode) o.add("BTC tips" + tipsOf(t.btc()));
     o.add("BTC root " + reg->nameOf(t.btc().getRoot().getHash()));
     o.add("BTC best " + reg->nameOf(t.btc().getBestChain().tip()->getHash()));
     auto s = o.str();
@@ -381,6 +401,7 @@ struct StoreSession : public vw::Session {
   // ------------------------------------------------------------------ dispatch
   std::string extra(Instance& I, const std::vector<std::string>& t) override {
     const std::string& c = t[0];
+    if (c == "xdump" && t.size() > 1 && t[1] == "fin") return xdump(I, false, false, true);
     if (c == "xdump") return xdump(I, !(t.size() > 1 && t[1] == "nobop"));
     if (c == "adump") return xdump(I, false, true);  // ALT tree only (model correspondence)
     if (c == "dirty")
@@ -453,9 +474,119 @@ struct StoreSession : public vw::Session {
     return "";
   }
 
+  // ------------------------------------------------------------------ bootstrap configuration
+  int vboot = 0, bboot = 0;  // number of blocks after genesis in the VBK / BTC bootstrap chain (0: genesis only)
+  void bootInstance(Instance& I) {
+    if (bboot > 0) {
+      std::vector<BtcBlock> c;
+      for (int i = 0; i <= bboot; i++) c.push_back(reg->btc.at("b" + std::to_string(i)));
+      I.tree.btc().bootstrapWithChain(0, c);
+    } else {
+      I.tree.btc().bootstrapWithGenesis(GetRegTestBtcBlock());
+    }
+    if (vboot > 0) {
+      std::vector<VbkBlock> c;
+      for (int i = 0; i <= vboot; i++) c.push_back(reg->vbk.at("v" + std::to_string(i)));
+      I.tree.vbk().bootstrapWithChain(0, c);
+    } else {
+      I.tree.vbk().bootstrapWithGenesis(GetRegTestVbkBlock());
+    }
+    I.tree.bootstrap();
+  }
+  // `begin` as in vw::Session::begin, plus the bootstrap chains: mined first, so that they get the ids v1..vk / b1..bk
+  void beginStore(const std::vector<std::string>& t) {
+    inst.clear();
+    reg.reset();
+    params.reset();
+    cfg = vw::Cfg();
+    cfg.parse(t, 1);
+    params.reset(new vw::Params(cfg));
+    reg.reset(new vw::Registry(*params));
+    vboot = (int)cfg.get("vbk_bootstrap_chain", 0);
+    bboot = (int)cfg.get("btc_bootstrap_chain", 0);
+    for (int i = 0; i < vboot; i++) reg->mineVbk("v" + std::to_string(i));
+    for (int i = 0; i < bboot; i++) reg->mineBtc("b" + std::to_string(i));
+    inst["A"].reset(new Instance(*params, *reg));
+    bootInstance(*inst["A"]);
+  }
+
+  // ------------------------------------------------------------------ direct oracle: no unsaved block is deallocated
+  std::set<std::string> guarded;
+  template <typename Tree>
+  static void dirtyHashes(const Tree& t, const char* tag, std::vector<std::pair<std::string, std::string>>& out,
+                          const vw::Registry& r) {
+    for (auto* i : t.getAllBlocks())
+      if (i->isDirty()) {
+        auto h = i->getHash();
+        out.push_back({std::string(tag) + vh::hex(h.data(), h.size()),
+                       r.nameOf(h) + "@" + std::to_string(i->getHeight()) + (i->isDeleted() ? "x" : "")});
+      }
+  }
+  template <typename Tree>
+  static void allHashes(const Tree& t, const char* tag, std::set<std::string>& out) {
+    for (auto* i : t.getAllBlocks()) {
+      auto h = i->getHash();
+      out.insert(std::string(tag) + vh::hex(h.data(), h.size()));
+    }
+  }
+  std::string guardedExec(const std::string& name, const std::vector<std::string>& t) {
+    std::vector<std::pair<std::string, std::string>> before;
+    {
+      Instance& I = *inst.at(name);
+      dirtyHashes(I.tree, "A", before, *reg);
+      dirtyHashes(I.tree.vbk(), "V", before, *reg);
+      dirtyHashes(I.tree.btc(), "B", before, *reg);
+    }
+    auto r = dispatch(t);
+    auto it = inst.find(name);
+    if (it == inst.end() || before.empty()) return r;
+    std::set<std::string> now;
+    allHashes(it->second->tree, "A", now);
+    allHashes(it->second->tree.vbk(), "V", now);
+    allHashes(it->second->tree.btc(), "B", now);
+    std::string lost;
+    int n = 0;
+    for (auto& b : before)
+      if (!now.count(b.first)) {
+        if (n++ < 6) lost += (lost.empty() ? "" : ",") + b.second;
+      }
+    if (n > 0)
+      vh::oracle_fail(curId, "unsaved-block-deallocated n=" + std::to_string(n) + " blocks=" + lost + " op=" +
+                                 (t.size() > 3 ? t[2] + ":" + t[3] : t[2]) + " vbkroot=" +
+                                 std::to_string(it->second->tree.vbk().getRoot().getHeight()) + " btcroot=" +
+                                 std::to_string(it->second->tree.btc().getRoot().getHeight()) + " altroot=" +
+                                 std::to_string(it->second->tree.getRoot().getHeight()));
+    return r;
+  }
+
   std::string top(const std::vector<std::string>& t) {
     const std::string& op = t[0];
-    if (op == "begin") { snaps.clear(); lastFinal.clear(); failedRemoved.clear(); }
+    if (op == "on" && t.size() >= 3) {
+      phase = t[1];
+      if (t[2] == "guard") {
+        if (!inst.count(t[1])) return "SKIP noinst";
+        if (t.size() > 3 && t[3] == "off") guarded.erase(t[1]); else guarded.insert(t[1]);
+        return "ok";
+      }
+      static const std::set<std::string> mutating{"hdr", "body", "set", "cmp", "inv", "reval", "rm", "rmpl", "payout", "fin"};
+      if (guarded.count(t[1]) && inst.count(t[1]) && mutating.count(t[2])) return guardedExec(t[1], t);
+    }
+    return dispatch(t);
+  }
+
+  std::string dispatch(const std::vector<std::string>& t) {
+    const std::string& op = t[0];
+    if (op == "begin") {
+      snaps.clear(); lastFinal.clear(); failedRemoved.clear(); guarded.clear();
+      beginStore(t);
+      return "ok";
+    }
+    if (op == "inst" && t.size() >= 2 && reg) {
+      inst[t[1]].reset(new Instance(*params, *reg));
+      bootInstance(*inst[t[1]]);
+      guarded.erase(t[1]);
+      return "ok";
+    }
     if (op == "snap") {
       auto it = inst.find(t[1]);
       if (it == inst.end()) return "SKIP noinst";
@@ -463,6 +594,7 @@ struct StoreSession : public vw::Session {
       return "ok";
     }
     if (op == "fromsnap" || op == "clone") {
+      phase = t[2];
       std::shared_ptr<adaptors::InmemStorageImpl> st;
       if (op == "clone") {
         auto it = inst.find(t[1]);
@@ -474,7 +606,7 @@ struct StoreSession : public vw::Session {
         st = std::make_shared<adaptors::InmemStorageImpl>(*it->second);
       }
       std::unique_ptr<Instance> n(new Instance(*params, *reg, st));
-      n->bootstrap();
+      bootInstance(*n);
       std::string err;
       if (!n->load(err)) {
         std::replace(err.begin(), err.end(), ' ', '_');
@@ -483,9 +615,18 @@ struct StoreSession : public vw::Session {
       inst[t[2]] = std::move(n);
       return "ok";
     }
-    if (op == "drop") { inst.erase(t[1]); return "ok"; }
-    if (op == "on" && t.size() >= 2) phase = t[1];
-    if (op == "clone" || op == "fromsnap") phase = t[2];
+    if (op == "drop") { inst.erase(t[1]); guarded.erase(t[1]); return "ok"; }
+    if (op == "on" && t.size() >= 3 && t[2] == "reload") {
+      // as PopContext::create does: bootstrap all three trees (same bootstrap configuration), then load
+      auto it = inst.find(t[1]);
+      if (it == inst.end()) return "SKIP noinst";
+      std::unique_ptr<Instance> n(new Instance(*params, *reg, it->second->storage));
+      bootInstance(*n);
+      std::string err;
+      if (!n->load(err)) return "fail " + err;
+      it->second = std::move(n);
+      return "ok";
+    }
     if (op == "on" && t.size() >= 4 && t[2] == "hdr") {
       auto it = inst.find(t[1]);
       if (it == inst.end()) return "SKIP noinst";
